@@ -11,14 +11,25 @@ class Prop:
     technique = ("Lean 4 invariant proofs over the timer-engine model with an explicit heap of Timer cells (use-after-free is an "
                  "observable event) + T1 + differential run with a schedule-controlled foreign addTimer (point "
                  "TimerQueue::addTimer:handedOver) under ASan + independent trace oracle")
-    level_text = ("Kernel-checked theorems for every operation sequence of the model: a cancel whose id is not active (already ran, "
-                  "already cancelled, default id, stale id after address reuse) changes nothing; cancel(addr, seq) removes only the "
-                  "timer whose sequence number is seq; sequence numbers strictly increase; after a processed cancel of a registered "
-                  "timer it never runs again except the one invocation of the batch that is being run, and it is not re-inserted; no "
-                  "step dereferences a freed Timer (full strength since fix 0550046). Tied to the code by T1 and by a differential "
-                  "run that includes the F4 schedule under ASan")
-    level_note = ("Trusted: as C06. cancel_final is _partial: a cancel processed on the loop thread while the foreign thread's "
-                  "addTimerInLoop functor is still queued is lost (known finding F21).")
+    level_text = ("Kernel-checked theorems (Props/C07.lean) for every input list of the model: cancel_noop / "
+                  "cancel_noop_in_batch / inactive_ids (a cancel whose pair is not active — already ran, already cancelled, "
+                  "default id, stale id after address reuse — changes nothing outside a batch and only cancelingTimers_ "
+                  "inside one); identity (in every reachable state cancel(addr, seq) removes a timer only if the live Timer "
+                  "at addr has sequence number seq; every other pending timer keeps its entries and its cell; seq_unique: "
+                  "live timers have pairwise different sequence numbers in 1..numCreated, seq_increasing: numCreated never "
+                  "decreases, a new Timer gets numCreated+1); no_uaf (no step of any history dereferences a freed Timer; "
+                  "depends on the extracted order addTimer_reads_sequence_first, full strength since fix 0550046); "
+                  "cancel_final_partial with the split forms cancel_pending_final (a cancel that found the timer pending — "
+                  "from the loop thread, a foreign thread or a callback of a batch it is not part of — is followed by no run "
+                  "and no restart of it), cancel_registered_final (after a cancel processed when the timer was registered: "
+                  "at most one more run, none if processed outside a batch, never a restart: self-cancel and same-batch "
+                  "cancel of a repeating timer) and cancelled_is_gone (between iterations such a timer is in neither set and "
+                  "has no live cell). Tied to the code by T1 and by a differential run that includes the F4 schedule under ASan")
+    level_note = ("Trusted: as C06 (the ghost flag `found` of the model's cancel event is not compared with the implementation). "
+                  "cancel_final is _partial: the full statement cancel_final_full (every processed cancel counts) is refuted by "
+                  "cancel_final_fails_witness: a cancel processed on the loop thread while the foreign thread's "
+                  "addTimerInLoop functor is still queued is lost (known finding F21); the proved variant requires the "
+                  "registration event to precede the cancel (or the cancel to have found the timer).")
     rule = ("random timer programs as for C06 with three times as many cancels: of pending, running (self), same-batch, already-run, "
             "already-cancelled, default and not-yet-bound ids, from the loop thread, from callbacks and from joined foreign threads "
             "(with a marker functor queued right behind), bursts of 3..30 allocate/free cycles followed by a stale cancel (address "
@@ -38,7 +49,8 @@ class Prop:
     ]
     partial_theorems = [
         {"theorem": "MuduoVerif.C07.cancel_final_partial",
-         "hypothesis": "the cancelled id is registered when cancelInLoop runs (not: still waiting in the functor queue)",
+         "hypothesis": "the cancelled id is registered when cancelInLoop runs (its `registered` event precedes the cancel event; "
+                       "not: still waiting in the functor queue), or the cancel found the timer in activeTimers_",
          "finding": "F21 after-cancel:add-still-queued", "negation_witness": "MuduoVerif.C07.cancel_final_fails_witness"},
     ]
 
